@@ -56,18 +56,19 @@ def connsOfText (l : List String) : Option (List Conn) :=
 /-! ### wait protocol: scripted scenarios on the transition system `PoolSM` -/
 open Tongo.PoolSM in
 /-- the actions the threads take on their own (everything except arrivals, the ticker and timers/cancellations) -/
-def autoActions (v : Variant) (s : State) : List Action :=
+def autoActions (v : Variant) (parked : List Nat) (s : State) : List Action :=
   (enabledActions v s).filter fun
-    | .recv | .nRLock | .nSend _ | .nDrain _ | .nPut | .nDone | .wSub _ | .wRecv _ | .wUnsub _ | .sSend _ => true
+    | .wRecv i => !parked.contains i
+    | .recv | .nRLock | .nSend _ | .nDrain _ | .nPut | .nDone | .wSub _ | .wUnsub _ | .sSend _ => true
     | _ => false
 
 open Tongo.PoolSM in
-def settle (v : Variant) : Nat → State → State
+def settle (v : Variant) (parked : List Nat) : Nat → State → State
   | 0, s => s
-  | fuel + 1, s => match autoActions v s with
+  | fuel + 1, s => match autoActions v parked s with
     | [] => s
     | a :: _ => match step v s a with
-      | some s' => settle v fuel s'
+      | some s' => settle v parked fuel s'
       | none => s
 
 open Tongo.PoolSM in
@@ -112,13 +113,17 @@ open Tongo.PoolSM in
 def apply? (v : Variant) (s : State) (as : List Action) : Option State := runTrace v s as
 
 open Tongo.PoolSM in
-/-- one script step; `k` = number of `u` steps seen so far; `shorts` = waiters with a short timer.
-Returns `none` when the model cannot take the step (a thread that should move is blocked). -/
-def scenStep (v : Variant) (sc : Scen) (s : State) (k : Nat) (shorts : List Nat) (st : List String) :
-    Option State :=
+/-- one script step; `k` = number of `u` steps seen so far; `shorts` = waiters with a short timer; `parked` =
+waiters held at the entry of their select (they do not receive). Returns `none` when the model cannot take the step
+(a thread that should move is blocked). -/
+def scenStep (v : Variant) (sc : Scen) (s : State) (k : Nat) (shorts parked : List Nat) (st : List String) :
+    Option (State × List Nat) :=
   match st with
-  | ["w", i, _, _] => (apply? v s [.wLock (i.toNat?.getD 0)]).map (settle v 10000)
-  | ["u", _, _] => (apply? v s [.sLock k]).map (settle v 10000)
+  | ["w", i, _, kind] =>
+    let i := i.toNat?.getD 0
+    let parked := if kind == "P" then i :: parked else parked
+    (apply? v s [.wLock i]).map fun s' => (settle v parked 10000 s', parked)
+  | ["u", _, _] => (apply? v s [.sLock k]).map fun s' => (settle v parked 10000 s', parked)
   | ["t", mask, rtts] =>
     let m := mask.toNat?.getD 0
     let rs := (rtts.splitOn ".").map (fun x => x.toInt?.getD 1)
@@ -126,14 +131,19 @@ def scenStep (v : Variant) (sc : Scen) (s : State) (k : Nat) (shorts : List Nat)
       ({ id := i, alive := (m >>> i) % 2 == 1, seqno := BitVec.ofNat 32 h, rtt := rs.getD i 1 } : Conn)
     let prev := match s.best with | none => none | some c => conns[c]?
     let choice := (specSelect sc.strategy conns prev).map (·.id)
-    (apply? v s ([.tick, .ubLock] ++ List.replicate s.heads.length .ubRead ++ [.ubSet choice])).map (settle v 10000)
+    (apply? v s ([.tick, .ubLock] ++ List.replicate s.heads.length .ubRead ++ [.ubSet choice])).map
+      fun s' => (settle v parked 10000 s', parked)
+  | ["r", i] =>
+    let parked := parked.erase (i.toNat?.getD 0)
+    some (settle v parked 10000 s, parked)
   | [c, i] =>
     let i := i.toNat?.getD 0
-    if c == "c" ∨ (c == "x" ∧ i ∈ shorts) then
+    if (c == "c" ∨ (c == "x" ∧ i ∈ shorts)) ∧ !parked.contains i then
       match s.waiters[i]? with
-      | some w => if w.pc == .sel then (apply? v s [.wFire i]).map (settle v 10000) else some s
-      | none => some s
-    else if c == "x" then some s else none
+      | some w => if w.pc == .sel then (apply? v s [.wFire i]).map fun s' => (settle v parked 10000 s', parked)
+                  else some (s, parked)
+      | none => some (s, parked)
+    else if c == "x" ∨ c == "c" then some (s, parked) else none
   | _ => none
 
 open Tongo.PoolSM in
@@ -141,23 +151,25 @@ def runScen (v : Variant) (sc : Scen) : String :=
   let shorts := sc.steps.filterMap fun st => match st with
     | ["w", i, _, "S"] => i.toNat?
     | _ => none
-  let rec go (s : State) (k : Nat) (acc : List String) : List (List String) → Option (State × List String)
-    | [] => some (s, acc)
+  let rec go (s : State) (k : Nat) (parked : List Nat) (acc : List String) :
+      List (List String) → Option (State × List Nat × List String)
+    | [] => some (s, parked, acc)
     | st :: rest =>
-      match scenStep v sc s k shorts st with
+      match scenStep v sc s k shorts parked st with
       | none => none
-      | some s' =>
-        if atRest s' then go s' (if st.head? == some "u" then k + 1 else k) (obsOf s' :: acc) rest else none
-  match go (scenInit sc) 0 [] sc.steps with
+      | some (s', parked') =>
+        if atRest s' then go s' (if st.head? == some "u" then k + 1 else k) parked' (obsOf s' :: acc) rest else none
+  match go (scenInit sc) 0 [] [] sc.steps with
   | none => "hang"
-  | some (s, acc) =>
-    -- epilogue: everybody still waiting is cancelled, in order of arrival
+  | some (s, _, acc) =>
+    -- epilogue: parked waiters are released, then everybody still waiting is cancelled, in order of arrival
     let order := sc.steps.filterMap fun st => match st with
       | ["w", i, _, _] => i.toNat?
       | _ => none
+    let s := settle v [] 10000 s
     let fin := order.foldl (fun (o : Option State) i => o.bind fun s =>
       match s.waiters[i]? with
-      | some w => if w.pc == .sel then (apply? v s [.wFire i]).map (settle v 10000) else some s
+      | some w => if w.pc == .sel then (apply? v s [.wFire i]).map (settle v [] 10000) else some s
       | none => some s) (some s)
     match fin with
     | some s' => if atRest s' then "ok " ++ "|".intercalate ((obsOf s' :: acc).reverse) else "hang"
